@@ -26,6 +26,11 @@ func (d *DotGit) setRefRwfs(fileName, content string, old *plumbing.Reference) (
 	}
 
 	f, err := d.fs.OpenFile(fileName, mode, 0o666)
+	if err != nil && d.removeEmptyDirs(fileName) {
+		// Like git, make room when only empty directories (left behind by
+		// removed or packed references below this name) are in the way.
+		f, err = d.fs.OpenFile(fileName, mode, 0o666)
+	}
 	if err != nil {
 		return err
 	}
@@ -56,6 +61,25 @@ func (d *DotGit) setRefRwfs(fileName, content string, old *plumbing.Reference) (
 
 	_, err = f.Write([]byte(content))
 	return err
+}
+
+// removeEmptyDirs removes path if it is a directory that contains nothing but
+// (nested) empty directories and reports whether it did.
+func (d *DotGit) removeEmptyDirs(path string) bool {
+	fi, err := d.fs.Lstat(path)
+	if err != nil || !fi.IsDir() {
+		return false
+	}
+	entries, err := d.fs.ReadDir(path)
+	if err != nil {
+		return false
+	}
+	for _, e := range entries {
+		if !e.IsDir() || !d.removeEmptyDirs(d.fs.Join(path, e.Name())) {
+			return false
+		}
+	}
+	return d.fs.Remove(path) == nil
 }
 
 // There are some filesystems that don't support opening files in RDWD mode.
